@@ -47,7 +47,7 @@ impl Monitor for C15 {
                     1 => { let c = &t.schema.cols[rng.below(t.schema.cols.len())]; ("count", E::Agg("count".into(), false, vec![col(&c.0)])) }
                     // (sums of 2^62-sized integers overflow for some split points and orders only: not part of the big-integer cases)
                     2 if case["big_ints"] != true => ("sum", E::Agg("sum".into(), false, vec![col(if t.schema.ty_of("r").is_some() && rng.chance(1, 2) { "r" } else { "i" })])),
-                    3 | 4 => { let c = *rng.pick(&["i", "k", "g"]); (*rng.pick(&["min", "max"]), E::Agg("min".into(), false, vec![col(c)])) }
+                    3 | 4 => { let c = *rng.pick(if t.schema.ty_of("r").is_some() { &["i", "k", "g", "r"][..] } else { &["i", "k", "g"][..] }); (*rng.pick(&["min", "max"]), E::Agg("min".into(), false, vec![col(c)])) }
                     _ => ("count", E::Agg("count".into(), false, vec![col("i")])),
                 };
                 let e = if let E::Agg(_, d, a) = &e { if k == "max" { E::Agg("max".into(), *d, a.clone()) } else { e.clone() } } else { e };
